@@ -376,6 +376,8 @@ impl Prop for C09 {
         out.set_exhaustive("hour_rand", false);
       }
       "compose" => {
+        // strided walks on fresh threads (see engine::stride_walks)
+        stride_walks(env, out, "compose", env.tier.pick(800, 24000) / nshards as u32, 7000 + shard as u64, 0, (crate::model::NDAYS as i64) - 366, 800, &|x| vec![x, (x * 7919).rem_euclid(86400)], &ev);
         let total: u32 = env.tier.pick(32_000, 640_000);
         prop_run(env, out, "compose", total / nshards as u32, shard as u64, instant_strategy(hi_idx), &ev);
         out.set_exhaustive("compose", false);
